@@ -54,7 +54,7 @@ class PathValidateListsSize(Contract):
 @register
 class PathRequiredLinks(Contract):
     fn = "gfapy/line/group/path/references.py::References._compute_required_links"
-    props = ("C07", "C12")
+    props = ("C07", "C12", "C04")
     fragment = "L"
     doc = ("the links required by a path: none for a single segment; otherwise one per consecutive pair (n-1, or n when the path is circular); "
            "when the overlaps are not the single '*' and there are fewer of them than steps, gfapy.InconsistencyError is raised; no index "
